@@ -622,6 +622,8 @@ class Ref:
             v = cb(v)
         if not self._effects_disabled(o2):
             for e in p["effects"]:
+                if isinstance(e, str) and e.startswith("log:"):
+                    continue  # a LogEffect: no user callable runs
                 if not isinstance(e, str):
                     self._option(e[2], None, o2)  # the effect's own option parameter
                     e = e[1]
